@@ -28,7 +28,7 @@ func c10Scenario(w *World) {
 	w.Cfg.Ndist = 30 + s.Intn(200, "ndist")
 	switch s.Intn(2, "family") {
 	case 0:
-		w.Scenario = GenOS(w, OSProfile{MaxSets: 3, Delegation: true, Lifecycle: true, LateCreate: true, AllLate: true, CompletePrev: true, Intruder: "granular", DriftOnly: true, Finalizers: true})
+		w.Scenario = GenOS(w, OSProfile{MaxSets: 3, Delegation: true, Lifecycle: true, LateCreate: true, AllLate: true, CompletePrev: true, OldestFirst: true, Intruder: "granular", DriftOnly: true, Finalizers: true})
 	case 1:
 		w.Scenario = GenOD(w, ODProfile{MaxEdits: 4, Pause: true, Limits: true, Delegation: s.Bool("delegation"), NeverReady: s.Chance(1, 3, "never-ready")})
 	}
